@@ -142,6 +142,36 @@ def r13a(ctx):
                 continue
             acc = list(accs)[0][4:]
             check_accumulator(ctx, a, rb, lp, acc, errb)
+    # converse: a direct counter decrement happens only after an element was actually removed (in the same iteration)
+    by_fn = {}
+    for (a, rb, m) in rem:
+        by_fn.setdefault(a.path, (a, []))[1].append(rb)
+    ndec = 0
+    for fnp in (PUT, EVICT, RMI):
+        a = an(ctx.F.body(fnp))
+        rbs = by_fn.get(fnp, (a, []))[1]
+        eff = paths.collect_effects(a, a.cfg.reach0, lambda k: k[-1] if k[-1] in ('total_bytes', 'num_items') and len(k) == 2 else None)
+        for b, es in eff.items():
+            for (c, sgn, t, e, ln) in es:
+                if sgn != -1:
+                    continue
+                # accumulator flushes (operand is a local accumulator / the length of the removal list) are checked by check_accumulator
+                if e[0] == 'local' or (e[0] == 'call' and sg(e[1]).endswith('Vec::len')):
+                    continue
+                ndec += 1
+                lp = innermost_loop(a, b)
+                if lp:
+                    head, blks = lp
+                    latches = [(x, head) for x in blks if head in a.cfg.succ[x]]
+                    cut = set(latches)
+                    for r_ in rbs:
+                        cut.update(a.cfg.out_edges(r_))
+                    dom = bool(rbs) and b not in a.cfg.reach([head], cut_edges=cut)
+                else:
+                    dom = bool(rbs) and a.cfg.must_pass(b, via_blocks=rbs)
+                ctx.check(dom, 'R13a', fnp, 'decrement<-removal:' + c, '%s:%d' % (a.body['file'], ln), '%s is decremented only after an element was actually removed on that path' % c,
+                          '%s can be decremented on a path that removed nothing from the tracked list (double accounting of an entry that is already gone)' % c)
+    ctx.floor('R13a', 'direct counter decrements examined', ndec, 4)
     # whole-key removal only when the list is empty
     for fnp in (EVICT, RMI):
         a = an(ctx.F.body(fnp))
